@@ -74,7 +74,22 @@ class Ctx:
         self.violations.append((message, path, no_input))
 
     # ---------------------------------------------------------------- finishing
+    def run_coqchk(self):
+        mods = sorted(set(getattr(self, "coqchk_mods", [])))
+        if self.tier != "thorough" or not mods or not self.proof.get("ok"):
+            return
+        rc, out = C.sh(["coqchk", "-o", "-silent", "-Q", "theories", "HW", "-Q", "gen", "HWGen"] + mods, cwd=C.COQ, timeout=9000)
+        ax = re.search(r"\* Axioms:\s*(.*?)\n\s*\n", out, re.S)
+        self.extra["coqchk"] = {"cmd": "coqchk -o -silent " + " ".join(mods), "exit": rc, "axioms": (ax.group(1).strip() if ax else "?")}
+        if rc != 0 or not ax or ax.group(1).strip() != "<none>":
+            self.proof["ok"] = False
+            self.proof["log"] = out[-3000:]
+            self.proof["failed_at"] = "coqchk " + " ".join(mods)
+            self.violation("the independent checker coqchk does not accept %s (exit %s, axioms: %s)" % (" ".join(mods), rc, ax.group(1).strip() if ax else "?"),
+                           None, no_input=True, tag="coqchk", extra_lines=out[-1500:].splitlines())
+
     def finish(self):
+        self.run_coqchk()
         wall = time.time() - self.t0
         for i in self.impls:
             i.cleanup()
@@ -133,9 +148,10 @@ TRUSTED_BASE = [
     "extraction (ExtrOcamlBasic only; no Extract Constant), OCaml 4.13, ocaml/driver.ml",
     "correspondence machinery: Rust harnesses, this Python orchestrator, rustc/cargo, the host CPU, Miri",
     "tools/srcfacts (syn-based extractor) for the regenerated gen/*.v files: facts, ladders, dispatch tables, memory signature",
-    "the source-to-AST translators rustlite.rs (portable.rs, internal.rs, and the whole of wasm.rs) and veclite.rs (SIMD kernels), the "
+    "the source-to-AST translators rustlite.rs (portable.rs, internal.rs, and the whole of wasm.rs and aarch64.rs) and veclite.rs (SIMD kernels), the "
     "RustLite / VecLite interpreters (the meaning given to the Rust fragment, incl. the panics of each build profile) and the primitive "
-    "tables mapping intrinsic names to model functions (for wasm.rs: RustLite.vprim / sprim, the 20 wasm32 instructions the file uses)",
+    "tables mapping intrinsic names to model functions (for wasm.rs / aarch64.rs: RustLite.vprim / sprim, the 20 wasm32 and 26 NEON instructions the files use; raw-pointer loads "
+    "of aarch64.rs read as checked loads from the byte array)",
 ]
 
 
@@ -296,14 +312,11 @@ def audit_proofs(ctx, prop_file, theorems):
         ctx.proof["failed_at"] = "Print Assumptions"
         return False
     if ctx.tier == "thorough":
-        rc, out = C.sh(["coqchk", "-o", "-silent", "-Q", "theories", "HW", "-Q", "gen", "HWGen", mod], cwd=C.COQ, timeout=3000)
-        ax = re.search(r"\* Axioms:\s*(.*?)\n\s*\n", out, re.S)
-        ctx.extra["coqchk"] = {"cmd": "coqchk -o -silent " + mod, "exit": rc, "axioms": (ax.group(1).strip() if ax else "?")}
-        if rc != 0 or not ax or ax.group(1).strip() != "<none>":
-            ctx.proof["ok"] = False
-            ctx.proof["log"] = out[-3000:]
-            ctx.proof["failed_at"] = "coqchk " + mod
-            return False
+        # the independent checker runs once per check, over all the audited modules together (finish()): each run re-checks the
+        # whole cone of dependencies, which the modules of one check share
+        if not hasattr(ctx, "coqchk_mods"):
+            ctx.coqchk_mods = []
+        ctx.coqchk_mods.append(mod)
     ctx.proof["discharged"] = nthm
     ctx.proof["ok"] = True
     ctx.extra["proof_wall_s"] = round(time.time() - t0, 2)
